@@ -437,6 +437,10 @@ def _use_then_replace(system, new_metric):
     system.h2_flow(st, sym("u", positive=True))
     if hasattr(system, "dh2_flow_dmom"):
         system.dh2_flow_dmom(st, sym("u", positive=True))
+        # ... and with the very time interval the obligations use afterwards (an integrator keeps its step size across the warm-up / main boundary): a
+        # result remembered per time step must not survive the replacement of the metric
+        system.dh2_flow_dmom(st, sym("t", positive=True))
+        system.h2_flow(st, sym("t", positive=True))
     system.h2(st)
     system.metric = new_metric
     return system
